@@ -270,7 +270,7 @@ static void grid_op(const CV &anchor, const CV &sides, const std::vector< CV > &
     bad << " predicate-sign-differs-in-grid-construction:" << audit.nwrong << "-of-"
         << (audit.norient + audit.ninsphere + audit.nexact) << "-calls,first:"
         << audit.first_wrong;
-  if (!(std::fabs(vol / bv - 1.) < 1.e-9))
+  if (!(std::fabs(vol / bv - 1.) < 1.e-6))
     bad << " grid-cell-volumes-do-not-sum-to-box-volume:rel-diff=" << (vol / bv - 1.);
 }
 
